@@ -102,6 +102,9 @@ def _agreement(ctx: Ctx):
         efr = rng.random() < 0.6
         na = rng.choice(["drop", "drop", "ignore"])
         df = frame.to_pandas()
+        if rng.random() < 0.3:            # a boolean column: numerical 0/1 for every materializer
+            df["flag"] = [bool((k * 7 + i) % 3 == 0) for k in range(len(df))]
+            f += rng.choice([" + flag", " + flag:a", " + flag:A"])
         rp = {"kind": "agreement", "formula": f, "frame": frame.describe(), "ensure_full_rank": efr, "na_action": na}
         ctx.oracle_runs += 1
 
